@@ -128,6 +128,25 @@ def sites():
             # the whole group given twice / omitted
             res['%s/%s/twice' % (bname, g)] = dict(base=bname, group=g, argv=build(g, toks + toks))
             res['%s/%s/omitted' % (bname, g)] = dict(base=bname, group=g, argv=build(g, []))
+    # pulse numbers exactly one past the last valid one (absolute / per object)
+    custom = [('ground', 'attach_load', 1, '--attach-load=2,5,3', 'rel-one-past'),
+              ('ground', 'attach_load', 0, '--attach-load=1,8', 'abs-one-past'),
+              ('ground', 'excitation_pulse', 1, '--excitation-pulse=4,8', 'rel-one-past'),
+              ('ground', 'excitation_pulse', 0, '--excitation-pulse=8', 'abs-one-past'),
+              ('curves', 'excitation_pulse', 0, '--excitation-pulse=6,5', 'rel-one-past'),
+              ('free', 'excitation_pulse', 0, '--excitation-pulse=10', 'abs-one-past'),
+              ('media', 'excitation_pulse', 0, '--excitation-pulse=8', 'abs-one-past')]
+    for bname, g, ti, newtok, label in custom:
+        groups = BASES[bname]
+        argv = []
+        for g2, toks in groups:
+            if g2 == g:
+                t2 = list(toks)
+                t2[ti] = newtok
+                argv += t2
+            else:
+                argv += toks
+        res['%s/%s#%d/%s' % (bname, g, ti, label)] = dict(base=bname, group=g, argv=argv)
     # contradictory / dependent options
     extra = {
         'free/x/nf_option_without_grid': ('free', ['--option=near-field']),
